@@ -5,6 +5,7 @@
 import DtnVerif.Drv.Util
 import DtnVerif.Model.BundleDec
 import DtnVerif.Model.Crc
+import DtnVerif.Model.BpAsb
 namespace DtnVerif
 namespace Drv
 open Lean Bp
@@ -84,6 +85,42 @@ def jOptBundle : Option Bundle → Json
 
 def getBundle? (j : Json) : Option Bundle := (getObj? j "bundle").bind bundleOfJson?
 
+def secValToJson : SecVal → Json
+  | .uint n => jobj [("u", jnat n)]
+  | .bstr d => jobj [("b", jhex d)]
+
+def secValOfJson? (j : Json) : Option SecVal :=
+  match getNat? j "u" with
+  | some n => some (.uint n)
+  | none => (getHex? j "b").map SecVal.bstr
+
+def pairToJson (p : SecPair) : Json := jobj [("id", jnat p.1), ("v", secValToJson p.2)]
+
+def pairOfJson? (j : Json) : Option SecPair := do
+  let k ← getNat? j "id"
+  let v ← (getObj? j "v").bind secValOfJson?
+  pure (k, v)
+
+def pairsOfJson? (j : Json) : Option (List SecPair) :=
+  match j with
+  | .arr a => a.toList.mapM pairOfJson?
+  | _ => none
+
+def asbToJson (a : Asb) : Json :=
+  jobj [("targets", jarr (a.targets.map jnat)), ("ctx", jnat a.contextId), ("flags", jnat a.flags),
+        ("source", eidToJson a.source), ("params", jarr (a.params.map pairToJson)),
+        ("results", jarr (a.results.map fun r => jarr (r.map pairToJson)))]
+
+def asbOfJson? (j : Json) : Option Asb := do
+  let targets ← natList? j "targets"
+  let contextId ← getNat? j "ctx"
+  let flags ← getNat? j "flags"
+  let source ← (getObj? j "source").bind eidOfJson?
+  let params ← (getObj? j "params").bind pairsOfJson?
+  let ra ← getArr? j "results"
+  let results ← ra.toList.mapM pairsOfJson?
+  pure { targets, contextId, flags, source, params, results }
+
 end BpDrv
 open BpDrv
 
@@ -130,6 +167,14 @@ def bpHandler : Handler := fun op j =>
     match normEid e with
     | none => some (jobj [("none", Json.bool true)])
     | some e' => some (jobj [("eid", eidToJson e'), ("wf", Json.bool (wfEid e))])
+  | "bp.asbenc" => do
+    let a ← (getObj? j "asb").bind asbOfJson?
+    some (jobj [("hex", jhex a.enc), ("wf", Json.bool (wfAsb a))])
+  | "bp.asbdec" => do
+    let d ← getHex? j "hex"
+    match decAsb d with
+    | none => some (jobj [("asb", Json.null)])
+    | some a => some (jobj [("asb", asbToJson a)])
   | "bp.btsd" => do
     let k ← getStr? j "kind"
     match k with
